@@ -174,6 +174,19 @@ pub fn workers() -> usize {
 }
 
 pub fn run_batch<P: Property>(p: &P, seed: u64, tier: Tier, nruns: u64, nworkers: usize) -> BatchResult<P::Case> {
+    run_batch_known(p, seed, tier, nruns, nworkers, &[])
+}
+
+/// `known`: signatures listed in known_findings.txt; a failure with such a signature is counted
+/// (`known.<signature>`) but neither collected nor allowed to cut the batch short.
+pub fn run_batch_known<P: Property>(
+    p: &P,
+    seed: u64,
+    tier: Tier,
+    nruns: u64,
+    nworkers: usize,
+    known: &[String],
+) -> BatchResult<P::Case> {
     let t0 = Instant::now();
     let next = AtomicU64::new(0);
     let total = Mutex::new((Agg::default(), Vec::<Found<P::Case>>::new(), 0u64));
@@ -202,6 +215,10 @@ pub fn run_batch<P: Property>(p: &P, seed: u64, tier: Tier, nruns: u64, nworkers
                         agg.samples.insert(i, p.sample(&case));
                     }
                     if let Some(failure) = failure {
+                        if known.contains(&failure.signature) {
+                            agg.count(&format!("known.{}", failure.signature));
+                            continue;
+                        }
                         // runs with a smaller index still complete; larger ones may be skipped
                         // once enough failures were seen (keeps a broken tree from taking forever)
                         found.push(Found { run: i, case, failure });
@@ -296,9 +313,10 @@ pub struct CheckOutcome {
 /// Full check: batch, shrink, replay files, known-finding classification, evidence.
 pub fn check<P: Property>(p: &P, seed: u64, tier: Tier) -> CheckOutcome {
     let nruns = std::env::var("VERIF_RUNS").ok().and_then(|s| s.parse().ok()).unwrap_or_else(|| p.runs(tier));
-    let res = run_batch(p, seed, tier, nruns, workers());
     let dir = verif_dir();
     let known = load_known(&format!("{dir}/known_findings.txt"));
+    let known_sigs: Vec<String> = known.iter().filter(|k| k.property == p.id()).map(|k| k.signature.clone()).collect();
+    let res = run_batch_known(p, seed, tier, nruns, workers(), &known_sigs);
     let mut violations = 0;
     let mut known_hits: BTreeMap<String, String> = BTreeMap::new();
     let mut reported: BTreeSet<String> = BTreeSet::new();
@@ -352,6 +370,11 @@ pub fn check<P: Property>(p: &P, seed: u64, tier: Tier) -> CheckOutcome {
                 harness_error = true;
                 lines.push(format!("HARNESS-ERROR cannot spawn replay: {e}"));
             }
+        }
+    }
+    for k in known.iter().filter(|k| k.property == p.id()) {
+        if res.agg.counters.get(&format!("known.{}", k.signature)).copied().unwrap_or(0) > 0 {
+            known_hits.entry(k.signature.clone()).or_insert_with(|| k.text.clone());
         }
     }
     for (sig, text) in &known_hits {
